@@ -171,7 +171,7 @@ CvDegreeIncrease ==
 SplitPieces(c, nodes) ==
   LET cs  == Cuts(c.U, nodes)
       p   == Deg(c.U)
-      add == Flatten([i \in 2..(Len(cs) - 1) |-> Repeat(cs[i], p + 1 - MultOf(c.U, cs[i]))])
+      add == Flatten([i \in 1..(Len(cs) - 2) |-> Repeat(cs[i + 1], p + 1 - MultOf(c.U, cs[i + 1]))])
       big == Refine(c, SortedUnion(c.U, add))
       vs  == SplitKV(c.U, nodes)
       start(i) == Span(big.U, cs[i]) - p          \* 0-based index of the first control point
